@@ -244,7 +244,7 @@ def print_assumptions(pid, names):
     if not names:
         return {}
     os.makedirs(WORK, exist_ok=True)
-    f = os.path.join(WORK, f"Assump_{pid}.v")
+    f = os.path.join(WORK, f"Assump_{pid}_{os.getpid()}.v")
     with open(f, "w") as fh:
         fh.write(f"From Dimod Require Import Props.{pid}.\n")
         for n in names:
@@ -258,6 +258,11 @@ def print_assumptions(pid, names):
         res[n] = "closed" if c.startswith("Closed") else re.sub(r"\s+", " ", c)[:600]
     if r.returncode != 0:
         res["_error"] = r.stderr[-500:]
+    for ext in (".v", ".vo", ".vok", ".vos", ".glob"):
+        try:
+            os.remove(f[:-2] + ext)
+        except OSError:
+            pass
     return res
 
 
@@ -269,7 +274,7 @@ def coq_eval_cases(pid, header, case_terms, check_fn, shard=300, tag=""):
     shards = [case_terms[i:i + shard] for i in range(0, len(case_terms), shard)]
     files = []
     for k, sh_cases in enumerate(shards):
-        name = f"Cases_{pid}{tag}_{k}"
+        name = f"Cases_{pid}{tag}_{os.getpid()}_{k}"
         p = os.path.join(WORK, name + ".v")
         with open(p, "w") as fh:
             fh.write(header + "\n")
